@@ -24,10 +24,19 @@
    length): with n = 0 the single batch is empty and the write is out of bounds — the model
    reproduces the get_power_series(b, 0) panic.  GuardEmpty = TRUE is the repaired closure.
 
+   PermRule: the slice length of permute is a power of two, so rounding the batch count UP TO A POWER OF
+   TWO is exactly what makes n / batches * batches = n; with PermRule = "threads" (batch count = thread
+   count) a tail of n mod threads indices is handled by no batch: `Partition` fails (e.g. n = 4, 3
+   threads) and, when the tail holds an index i with rev(i) > i, `Final` fails (n = 16, 11 threads:
+   batches of 1 cover 0..10, index 11 <-> 13 is never swapped) — MCChunking_permfound_*.cfg.
+
    MinBatch is 1024 in the code; the model scales it down (the partition arithmetic is the same). *)
 EXTENDS FieldP, TLC, FiniteSets
 
-CONSTANTS MaxN, MinBatches, Ops, GuardEmpty, MaxStates
+CONSTANTS MaxN, MinBatches, Ops, GuardEmpty, MaxStates,
+          Threads,      \* thread counts explored (1..16 in the gate configurations)
+          PermRule      \* batch count of concurrent::permute: "pow2" = next_power_of_two(threads) (the code),
+                        \*                                       "threads" = the thread count itself (not rounded)
 
 P == 97
 B == 5                       \* base of the power series
@@ -45,12 +54,15 @@ Log2(n) == CHOOSE k \in 0..6 : 2 ^ k = n
 RECURSIVE BitRev(_, _)
 BitRev(k, i) == IF k = 0 THEN 0 ELSE (i % 2) * (2 ^ (k - 1)) + BitRev(k - 1, i \div 2)
 
+PermBatches(t) == IF PermRule = "pow2" THEN NextPow2(t) ELSE t
 \* the chunks of a run: sequence of [lo, hi) index ranges
 Chunks(c) ==
   LET bs == c.n \div NextPow2(c.t) IN
   IF c.op = "perm"
-    THEN \* concurrent::permute always makes next_power_of_two(threads) batches of n / batches cells
-         [j \in 1..NextPow2(c.t) |-> [lo |-> (j - 1) * bs, hi |-> j * bs]]
+    THEN \* concurrent::permute makes PermBatches(threads) hand-rolled batches of n / batches indices each
+         \* and nothing else: indices beyond batches * (n / batches) are handled by nobody
+         LET k == PermBatches(c.t)  pbs == c.n \div k
+         IN [j \in 1..k |-> [lo |-> (j - 1) * pbs, hi |-> j * pbs]]
     ELSE IF bs < c.min THEN << [lo |-> 0, hi |-> c.n] >>
          ELSE [j \in 1..CeilDiv(c.n, bs) |-> [lo |-> (j - 1) * bs, hi |-> Min2(j * bs, c.n)]]
 
@@ -70,8 +82,8 @@ Steps(c, ch) ==
     [] c.op = "perm" -> len
 
 Init ==
-  /\ cfg \in {c \in [op : Ops, n : 0..MaxN, t : 1..16, min : MinBatches] :
-                /\ (c.op = "perm" => c.n \in {2, 4, 8, 16, 32, 64} /\ c.n >= NextPow2(c.t) /\ c.min = CHOOSE m \in MinBatches : TRUE)
+  /\ cfg \in {c \in [op : Ops, n : 0..MaxN, t : Threads, min : MinBatches] :
+                /\ (c.op = "perm" => c.n \in {2, 4, 8, 16, 32, 64} /\ c.n >= PermBatches(c.t) /\ c.min = CHOOSE m \in MinBatches : TRUE)
                 \* keep the interleaving space of one configuration explorable
                 /\ LET chs == Chunks(c)
                        RECURSIVE Prod(_)
